@@ -38,7 +38,7 @@ REQUIRED_LABELS = {"kind:asmatrix": 0.3, "kind:expr": 0.1, "basis:custom": 0.1}
 
 
 def budget(tier):
-    n = int(os.environ.get("KV_EXAMPLES", 0)) or (3200 if tier == "quick" else 20000)
+    n = int(os.environ.get("KV_EXAMPLES", 0)) or (8000 if tier == "quick" else 20000)
     return {"examples": n, "shards": 16, "wall": 100 if tier == "quick" else 1200}
 
 
